@@ -349,10 +349,11 @@ def canon(x):
 
 
 def load_known():
+    out = []
     p = os.path.join(ROOT, "known_findings.json")
-    if not os.path.exists(p):
-        return []
-    return json.load(open(p)).get("findings", [])
+    if os.path.exists(p):
+        out += json.load(open(p)).get("findings", [])
+    return out
 
 
 def write_replay(pid, payload):
@@ -373,6 +374,11 @@ def run_check(prop, tier, seed):
         "coverage": {}, "assumptions": list(prop.assumptions), "wall_s": 0.0, "violations": 0,
     }
     cov = ev["coverage"]
+    rdir = os.path.join(BUILD, "replay")
+    if os.path.isdir(rdir):
+        for f in os.listdir(rdir):
+            if f.startswith(pid + "_"):
+                os.remove(os.path.join(rdir, f))
     broken = []       # broken ties (proof obligations / correspondences / translator)
     violations = []   # (msg, replay payload)
     known_lines = []
